@@ -92,6 +92,46 @@ def ordered_rows(out):
     return [tuple(cell(v) for v in row) for row in out.values.tolist()]
 
 
+def lib_hidden_state():
+    """Every mutable container a library call could leave something in: module globals, mutable default
+    arguments of functions and methods, class attributes.  Yields (label, container)."""
+    import types
+    seen = set()
+    for name in sorted(sys.modules):
+        if not name.startswith('py_stringsimjoin') or sys.modules[name] is None:
+            continue
+        mod = sys.modules[name]
+        for k in sorted(vars(mod)):
+            v = vars(mod)[k]
+            if k.startswith('__'):
+                continue
+            if isinstance(v, (dict, list, set)) and k != 'COMP_OP_MAP':
+                if id(v) not in seen:
+                    seen.add(id(v))
+                    yield ('%s.%s' % (name, k), v)
+            funcs = []
+            if isinstance(v, types.FunctionType) and getattr(v, '__module__', '').startswith('py_stringsimjoin'):
+                funcs.append(('%s.%s' % (name, k), v))
+            elif isinstance(v, type) and getattr(v, '__module__', '').startswith('py_stringsimjoin'):
+                for ck, cv in sorted(vars(v).items()):
+                    if ck.startswith('__'):
+                        continue
+                    if isinstance(cv, (dict, list, set)) and id(cv) not in seen:
+                        seen.add(id(cv))
+                        yield ('%s.%s.%s' % (name, k, ck), cv)
+                    if isinstance(cv, types.FunctionType):
+                        funcs.append(('%s.%s.%s' % (name, k, ck), cv))
+            for label, f in funcs:
+                for i, d in enumerate(f.__defaults__ or ()):
+                    if isinstance(d, (dict, list, set)) and id(d) not in seen:
+                        seen.add(id(d))
+                        yield ('%s.__defaults__[%d]' % (label, i), d)
+                for dk, d in sorted((f.__kwdefaults__ or {}).items()):
+                    if isinstance(d, (dict, list, set)) and id(d) not in seen:
+                        seen.add(id(d))
+                        yield ('%s.__kwdefaults__[%s]' % (label, dk), d)
+
+
 def lib_globals_fingerprint():
     """Module-level state of the library (anything a task could leave behind in a reused worker)."""
     import types
@@ -110,6 +150,9 @@ def lib_globals_fingerprint():
                 continue
             if isinstance(v, (int, float, str, bool, tuple, list, dict, set, frozenset, type(None))):
                 fp.append((name, k, repr(v)[:200]))
+    for label, cont in lib_hidden_state():
+        fp.append(('hidden', label, repr(sorted(cont.items(), key=repr) if isinstance(cont, dict) else
+                                         (sorted(cont, key=repr) if isinstance(cont, set) else cont))[:300]))
     from mcx.common import tok_state
     for fn in (ssj.edit_distance_join,):
         for d in (fn.__defaults__ or ()):
